@@ -33,3 +33,13 @@ package log
 //@   assert before call slog.Uint64 #2 : [failed] arg0 == "failed" && arg1 == failed
 //@   assert before call slog.Uint64 #3 : [dropped] arg0 == "dropped" && arg1 == dropped
 //@   assert before call slog.Duration : [period] arg0 == "period" && arg1 == period
+//@
+//@ func ScenarioAttr
+//@   props C14 C08 C06
+//@   modifies nothing
+//@
+//@ func NewSlogLogrusLogger
+//@   props C14 C08 C06
+//@   trusted wraps a logger; no effect on modelled state
+//@   modifies nothing
+//@   ensures result != nil
